@@ -66,6 +66,16 @@ def check_c07(files):
             fails.append(("language-totals", f"{lang}: totals {got} expected {exp}"))
     if set(cb.totals) != {f[1] for f in files}:
         fails.append(("language-set", f"{sorted(cb.totals)}"))
+    # the scan path: a fresh ScanTotals() fed entry by entry must equal the codebase totals (also the second time)
+    for attempt in (1, 2):
+        live = ScanTotals()
+        for path, lang, ms in files:
+            live.add(cb.files[path])
+        lv = {t.language: (t.files, t.loc, t.functions, t.hard_to_maintain, t.unmaintainable) for t in live.languages_totals()}
+        cv = {k: (t.files, t.loc, t.functions, t.hard_to_maintain, t.unmaintainable) for k, t in cb.totals.items()}
+        if lv != cv:
+            fails.append(("live-totals", f"ScanTotals() fed with the same entries (run {attempt} in this process): {lv} expected {cv}"))
+            break
     st = ScanTotals(cb.totals)
     grand = (st.total_files(), st.total_loc(), st.total_functions(), st.total_hard_to_maintain(), st.total_unmaintainable())
     exp = (len(files), sum(sum(m.value for m in f[2]) for f in files), sum(len(f[2]) for f in files),
@@ -255,6 +265,11 @@ def main():
                     files.append((p, rnd.choice(LANGS), mk_measurements(rnd, rnd.randint(0, 3), AWKWARD + ["f"])))
                 repo = None if rnd.random() < .5 else (rnd.choice(pools), rnd.choice(pools), rnd.choice(pools + [None]))
                 cases.append((files, "/r/" + rnd.choice(pools), repo, rnd.choice([None, None, "9.9.9"])))
+            # measurement lists that are not in source order must round-trip unchanged as well
+            for _ in range(10):
+                ms = mk_measurements(rnd, 4, ["f", "g"])
+                rnd.shuffle(ms)
+                cases.append(([("u.py", "Python", ms)], "/root", None, None))
             for files, root, repo, version in cases:
                 evals += 1
                 distinct.add(json.dumps([ser(files), root, repo, version], default=str))
